@@ -14,6 +14,8 @@ def make_copy(name):
     return d
 
 def apply(d, m):
+    if 'edits' in m:      # several cooperating edits (each {file, re, sub}); all must apply
+        return all(apply(d, e) for e in m['edits'])
     p = os.path.join(d, m['file'])
     s = open(p).read()
     new, n = re.subn(m['re'], m['sub'], s, count=0 if m.get('all') else 1)
